@@ -22,60 +22,58 @@ namespace KrroodVerif.Eql
 /-- **union_true_sound.** For `e` in the positive fragment, a **true** result cell of `eval w e env` that is
 compatible with a total assignment `τ` (values occurring exactly once in their domains, as in `C01_cover`)
 implies that `τ` satisfies `e` in the first-order reading. Conditional on both sides returning `.ok`. -/
-theorem union_true_sound (w : World) (hw : DomTruthy w) (τ : Asg) (e : Expr)
+theorem union_true_sound (w : World) (τ : Asg) (e : Expr)
     (hF : e.Fp = true) (hτ : ∀ v ∈ e.vars, ∃ x, τ.lookup v = some x ∧ (w.dom v).count x = 1)
     (hlit : LitNodup e) (env : Env) (rs : List (Env × Bool)) (b : Bool)
-    (htr : ∀ v x, (Key.var v, x) ∈ env → truthy x = true)
     (hfresh : ∀ id, Key.lit id ∈ e.nodes → env.lookup (.lit id) = none)
     (he : eval w e env = .ok rs)
     (p : Env × Bool) (hp : p ∈ rs) (hpt : p.2 = true) (hag : agreesB τ p.1 = true)
     (hs : satE w e τ = .ok b) :
     b = true :=
-  true_sound w hw τ e hF hτ hlit env rs b htr hfresh he p hp hpt hag hs
+  true_sound w τ e hF hτ hlit env rs b hfresh he p hp hpt hag hs
 
 /-- **union_true_complete.** For `e` in the positive fragment, a total assignment `τ` compatible with `env` that
 satisfies `e` lies in some **true** result cell of `eval w e env`. -/
-theorem union_true_complete (w : World) (hw : DomTruthy w) (τ : Asg) (e : Expr)
+theorem union_true_complete (w : World) (τ : Asg) (e : Expr)
     (hF : e.Fp = true) (hτ : ∀ v ∈ e.vars, ∃ x, τ.lookup v = some x ∧ (w.dom v).count x = 1)
     (hlit : LitNodup e) (env : Env) (rs : List (Env × Bool))
-    (htr : ∀ v x, (Key.var v, x) ∈ env → truthy x = true)
     (hfresh : ∀ id, Key.lit id ∈ e.nodes → env.lookup (.lit id) = none)
     (hag : agreesB τ env = true)
     (he : eval w e env = .ok rs) (hs : satE w e τ = .ok true) :
     ∃ p ∈ rs, p.2 = true ∧ agreesB τ p.1 = true :=
-  true_complete w hw τ e hF hτ hlit env rs htr hfresh hag he hs
+  true_complete w τ e hF hτ hlit env rs hfresh hag he hs
 
 /-- **union_cell_complete.** Stronger form of completeness (what makes `elseIf` over unions work): `τ` lies in
 some result cell whose flag is the truth value of `e` under `τ`, for either truth value. Together with
 `union_true_sound`: on the positive fragment only the *soundness of false cells* fails. -/
-theorem union_cell_complete (w : World) (hw : DomTruthy w) (τ : Asg) (e : Expr)
+theorem union_cell_complete (w : World) (τ : Asg) (e : Expr)
     (hF : e.Fp = true) (hτ : ∀ v ∈ e.vars, ∃ x, τ.lookup v = some x ∧ (w.dom v).count x = 1)
     (hlit : LitNodup e) (env : Env) (rs : List (Env × Bool)) (b : Bool)
-    (htr : ∀ v x, (Key.var v, x) ∈ env → truthy x = true)
     (hfresh : ∀ id, Key.lit id ∈ e.nodes → env.lookup (.lit id) = none)
     (hag : agreesB τ env = true)
     (he : eval w e env = .ok rs) (hs : satE w e τ = .ok b) :
     ∃ p ∈ rs, p.2 = b ∧ agreesB τ p.1 = true :=
-  cell_complete w hw τ e hF hτ hlit env rs b htr hfresh hag he hs
+  cell_complete w τ e hF hτ hlit env rs b hfresh hag he hs
 
 /-- **C01_sound_complete_union_partial.** Soundness and completeness as sets of rows on the positive fragment:
 conditions over `and_`, `or_` between conditions over **arbitrary** variable sets (`ElseIf` or `Union`) and
 `not_` over `F1` sub-conditions (`SExpr.Fp1`: no `Union` below a `not_`, the negation of the trigger of F-C01-1);
-selections as in `C01_sound_complete_F1_partial` (`selF1`, `trigMultiSel q = false`). Side conditions: truthy,
-duplicate-free and — for the query's variables — non-empty domains (the negations of the triggers of F-C01-3 and
-F-C01-9), distinct literal ids. Conditional on both sides returning `.ok`. A true cell of a `Union` may leave
+selections as in `C01_sound_complete_F1_partial` (`selF1`, `trigMultiSel q = false`). Side conditions:
+duplicate-free and — for the query's variables — non-empty domains (the negation of the trigger of
+F-C01-9), distinct literal ids (until fix commit `78cb732` repaired F-C01-3 the domains also had to be truthy).
+Conditional on both sides returning `.ok`. A true cell of a `Union` may leave
 variables of the condition unbound; a selected one then ranges over its whole domain, and every such completion
 satisfies the condition (`union_true_sound`). -/
 theorem C01_sound_complete_union_partial (w : World) (q : SQuery) (c : SExpr)
     (hc : q.cond = some c) (hF : c.Fp1 = true) (hsel : selF1 q.sel = true) (hms : trigMultiSel q = false)
-    (hdt : DomTruthy w) (hnd : ∀ v, (w.dom v).Nodup) (hne : ∀ v ∈ q.vars, w.dom v ≠ [])
+    (hnd : ∀ v, (w.dom v).Nodup) (hne : ∀ v ∈ q.vars, w.dom v ≠ [])
     (hlit : LitNodup (build c))
     {rows rows' : List (List Val)}
     (h1 : evalQuery w q.toQuery = .ok rows) (h2 : solutions w q = .ok rows') :
     ∀ r, r ∈ rows ↔ r ∈ rows' := by
   obtain ⟨sel, cond⟩ := q
   simp only at hc; subst hc
-  exact sound_complete_Fp w sel c hF hsel (hasDup_false_iff.mp hms) hdt hnd hne hlit h1 h2
+  exact sound_complete_Fp w sel c hF hsel (hasDup_false_iff.mp hms) hnd hne hlit h1 h2
 
 /-! ## non-vacuity (tests)
 
@@ -94,7 +92,7 @@ example :
     build c01unC = .union (.cmp .eq (.attr (.var 0) "a") (.lit 101 (.int 1)))
       (.cmp .eq (.attr (.var 1) "a") (.lit 102 (.int 2))) ∧
     (build c01unC).Fp = true ∧ (build c01unC).Fc = false ∧
-    selF1 c01unQ.sel = true ∧ trigMultiSel c01unQ = false ∧ DomTruthy c02nvW ∧ (∀ v, (c02nvW.dom v).Nodup) ∧
+    selF1 c01unQ.sel = true ∧ trigMultiSel c01unQ = false ∧ (∀ v, (c02nvW.dom v).Nodup) ∧
     (∀ v ∈ c01unQ.vars, c02nvW.dom v ≠ []) ∧ LitNodup (build c01unC) ∧
     evalQuery c02nvW c01unQ.toQuery = .ok [[.obj 0, .obj 2], [.obj 1, .obj 0], [.obj 1, .obj 1], [.obj 1, .obj 2],
       [.obj 2, .obj 2], [.obj 0, .obj 2], [.obj 1, .obj 2], [.obj 2, .obj 2]] ∧
@@ -103,7 +101,7 @@ example :
     sameAnswers (evalQuery c02nvW c01unQ.toQuery) (solutions c02nvW c01unQ) = true ∧
     (assignments c02nvW c01unQ.vars).length = 9 :=
   ⟨rfl, by decide, by decide, by decide, by decide, by decide, by decide, by decide,
-    domTruthy_of_B (by decide), domsNodup_of_B (by decide), by decide, by decide, by decide, by decide,
+    domsNodup_of_B (by decide), by decide, by decide, by decide, by decide,
     by decide, by decide⟩
 
 /-- the theorem applied to the test query (all hypotheses discharged by `decide`) -/
@@ -111,7 +109,7 @@ example : ∀ r, r ∈ [[Val.obj 0, .obj 2], [.obj 1, .obj 0], [.obj 1, .obj 1],
       [.obj 2, .obj 2], [.obj 0, .obj 2], [.obj 1, .obj 2], [.obj 2, .obj 2]] ↔
     r ∈ [[Val.obj 0, .obj 2], [.obj 1, .obj 0], [.obj 1, .obj 1], [.obj 1, .obj 2], [.obj 2, .obj 2]] :=
   C01_sound_complete_union_partial c02nvW c01unQ c01unC rfl (by decide) (by decide) (by decide)
-    (domTruthy_of_B (by decide)) (domsNodup_of_B (by decide)) (by decide) (by decide) (by decide) (by decide)
+    (domsNodup_of_B (by decide)) (by decide) (by decide) (by decide) (by decide)
 
 /-! A second test: `or_(or_(x.a == 1, y.a == 2), x.a < y.a)` — the n-ary `or_(p(x), q(y), r(x, y))` — is built as
 an `ElseIf` whose left side is a `Union` (the outer sides have the same variables); and a `not_` over an `F1`
